@@ -8,6 +8,7 @@ import (
 	"fmt"
 	"math"
 	"net/url"
+	"reflect"
 	"regexp"
 	"runtime/debug"
 	"sort"
@@ -432,6 +433,34 @@ func scalarValue(rng *simrt.Rng, fd protoreflect.FieldDescriptor) protoreflect.V
 // (only used from the single goroutine that prepares workloads).
 var anyChain int
 
+// nilOneofInner turns one populated message-typed oneof member of a GENERATED message into the
+// state `&Msg{Choice: &Msg_Member{}}`: the wrapper is set, the message pointer inside it is nil.
+// Valid, common in hand-written Go, reads as an empty member - and Has() is true while the pointer
+// is nil, which is where a reader that uses Mutable() writes to the message it only reads.
+func nilOneofInner(msg proto.Message) bool {
+	v := reflect.ValueOf(msg)
+	if v.Kind() != reflect.Ptr || v.IsNil() || v.Elem().Kind() != reflect.Struct {
+		return false
+	}
+	v = v.Elem()
+	for i := 0; i < v.NumField(); i++ {
+		f := v.Field(i)
+		if f.Kind() != reflect.Interface || f.IsNil() || !f.CanSet() {
+			continue
+		}
+		w := f.Elem()
+		if w.Kind() != reflect.Ptr || w.IsNil() || w.Elem().Kind() != reflect.Struct || w.Elem().NumField() != 1 {
+			continue
+		}
+		in := w.Elem().Field(0)
+		if in.Kind() == reflect.Ptr && in.Type().Elem().Kind() == reflect.Struct && in.CanSet() && !in.IsNil() {
+			in.Set(reflect.Zero(in.Type()))
+			return true
+		}
+	}
+	return false
+}
+
 func newPopulated(ti *TypeInfo, seed uint64) protoreflect.Message {
 	m := ti.Type.New()
 	rng := simrt.NewRng(seed)
@@ -457,7 +486,10 @@ type OpSpec struct {
 	Type    string `json:"type"`
 	ValSeed uint64 `json:"val_seed"`
 	Mutate  int    `json:"mutate,omitempty"` // decode/query: 0 = well-formed, k>0 = k-th malformation
-	Poison  int    `json:"poison,omitempty"` // encode-type ops: 1 = enum number outside the enum, 2 = invalid UTF-8 string (the encode fails after producing output)
+	// NilOneof: a message-typed oneof member of the (generated) input message is set with a nil
+	// message pointer inside its wrapper (see nilOneofInner)
+	NilOneof bool `json:"nil_oneof,omitempty"`
+	Poison   int  `json:"poison,omitempty"` // encode-type ops: 1 = enum number outside the enum, 2 = invalid UTF-8 string (the encode fails after producing output)
 }
 
 func (o OpSpec) String() string {
@@ -467,6 +499,9 @@ func (o OpSpec) String() string {
 	}
 	if o.Poison != 0 {
 		s += fmt.Sprintf(",poison%d", o.Poison)
+	}
+	if o.NilOneof {
+		s += ",niloneof"
 	}
 	return s + ")"
 }
@@ -625,6 +660,9 @@ func prepare(spec OpSpec) *Prepared {
 		poison(m, spec.Poison)
 	}
 	p.Msg = proto.Clone(m.Interface()) // the cloned form: shared and per-execution inputs are the same value
+	if spec.NilOneof {
+		nilOneofInner(p.Msg) // after the clone, which would fill the pointer in; generated messages only
+	}
 	switch spec.Kind {
 	case "decode":
 		js, err := safeEncode(codec.NewCodec(), m)
@@ -1311,6 +1349,7 @@ func genWorkload(seed uint64, deep bool) *Workload {
 			op.Kind = []string{"encode", "encode", "encode_any", "walk", "decode_any"}[rng.Intn(5)]
 			if op.Kind != "decode_any" {
 				op.Mutate = 0
+				op.NilOneof = rng.Bool(0.5)
 			} else {
 				op.Poison = 0
 			}
